@@ -173,3 +173,24 @@ PROPS['C20'] = {
     'explanation': 'NOP body refines "read one signed count byte, remove that many items, nothing else"; table '
                    'partition and compile / decompile handlers checked on the live tables',
 }
+
+
+PROPS['C19'] = {
+    'functions': ['functions.add_plugin', 'functions.remove_plugin', 'functions.reset_plugins',
+                  'functions.add_signature_extension', 'functions.remove_signature_extension',
+                  'functions.reset_signature_extensions', 'functions.add_contract', 'functions.remove_contract',
+                  'functions.run_script', 'functions.run_auth_scripts', 'functions.run_plugins'] + ERRORS,
+    'select': [r'^functions\.(add_|remove_|reset_)', r'registry\.', r'fresh\.', r'/frame/', r'none-installed',
+               r'run_plugins/'],
+    'trusted_base': TRUSTED_COMMON + ['_check_contract: assumed (opaque isinstance against Protocol classes)'],
+    'assumptions': ASSUME_COMMON + ['plugin lists are duplicate-free (established by add_plugin, precondition of '
+                                    'remove_plugin); registry values are lists (typed container)',
+                                    'aliases, contract interfaces and compile-history independence: bounded stand-in '
+                                    '(string manipulation on symbolic str / Protocol metaclasses are outside the '
+                                    'executor), labelled'],
+    'extra': ['props.bounded:c19_history'],
+    'explanation': 'whole-view postconditions (what was added / removed, every other entry and scope unchanged) for '
+                   'the plugin and contract registries, with set semantics stated by quantifiers over the lists; '
+                   'run_script builds tape.contracts / tape.plugins from exactly the registry contents overlaid with '
+                   'its arguments in fresh dicts, and leaves the caller\'s dictionaries unmodified (frame)',
+}
